@@ -1,4 +1,5 @@
 """C10 — optimisation options never change the computed tensor."""
+import common
 import corpus
 import valprops
 
@@ -164,6 +165,9 @@ def run(v, tier, seed, g):
         if x["status"] == "rejected":
             v.oblige(False)
             v.violation(f"c10-diagonal-rejected:{x['id']}", f"part='diagonal' rejected (case {x['id']}): {x.get('error','')[:160]}", {"case": x["id"], "code": x["code"]})
+    # 3b. the same statement PROVED per kernel pair for all inputs: symbolic execution of the rank-2 and the
+    #     rank-1 kernel from a zero tensor, diagonal of the one against the other (SymEq.diagonal_equiv_sound)
+    stats["diagonal_symbolic"] = diagonal_symbolic(v, tier, seed)
     # 4. table tolerances: zero tolerances and coarse tolerances
     r = valprops.run_oracle(TOLFORMS, seed, entity_mode=em, options_override={"table_rtol": 0.0, "table_atol": 0.0})
     stats["tolerance_zero"] = valprops.account(v, r, "c10-tol0", what="table_rtol=table_atol=0 changes the tensor")
@@ -193,6 +197,73 @@ def run(v, tier, seed, g):
            "axioms_under_property_theorems": g.get("axioms", [])}
     return v.finish("proof", cov, ["forms sampled; proved: clamping bound, diagonal kernel = diagonal under FFCx's dof layouts with the guard read off the source, tensor-rule factorisation algebra",
                                    "table classification (zeros/ones/piecewise) uses the default tolerances whatever table_rtol/table_atol say"])
+
+
+def diagonal_symbolic(v, tier, seed):
+    import itertools
+    import math
+    import os
+    import re
+
+    import execcorr
+    import ffx
+    import numpy as np
+    full = common.run_cases(DIAGONAL)
+    diag = common.run_cases([dict(c, code=c["code"] + 'options={"part":"diagonal"}\n') for c in DIAGONAL])
+    common.clean_gen("C10d_")
+    files = {}
+    rng = np.random.default_rng(seed)
+    for rf, rd in zip(full, diag):
+        if rf["status"] != "ok" or rd["status"] != "ok" or len(rf["kernels"]) != len(rd["kernels"]):
+            continue
+        for kf, kd in zip(rf["kernels"], rd["kernels"]):
+            if "body" not in kf or "body" not in kd:
+                continue
+            cf, cd = kf["contract"], kd["contract"]
+            n = cd["nA"]
+            if cf["nA"] != n * n or cf["integral_type"] != cd["integral_type"]:
+                continue                       # not a bilinear form (rank 0/1 kernels are compared by the oracle run)
+            if execcorr.flops_estimate(kf["body"]) > (20000 if tier == "quick" else 200000):
+                continue
+            ents = list(itertools.product(range(cf["e_range"][0], max(cf["e_range"][1], 1)), repeat=cf["ne"])) if cf["ne"] else [()]
+            perms = list(itertools.product(range(cf["p_range"][0], max(cf["p_range"][1], 1)), repeat=cf["np"])) if cf["np"] else [()]
+            combos = list(itertools.product(ents, perms))
+            cap = 6 if tier == "quick" else 100
+            if len(combos) > cap:
+                combos = [combos[i] for i in sorted(rng.choice(len(combos), size=cap, replace=False))]
+            path = os.path.join(common.GEN, f"C10d_{len(files)}.v")
+            t = ("From Coq Require Import ZArith List String Uint63.\nFrom FFCX Require Import LN Enc Sym SymEq.\n"
+                 "Import ListNotations.\nOpen Scope string_scope.\n")
+            t += "Definition k_full : list stmt :=\n" + ffx.coq_body(kf["body"]) + ".\n"
+            t += "Definition k_diag : list stmt :=\n" + ffx.coq_body(kd["body"]) + ".\n"
+            t += "Definition combos : list (list Z * list Z) := [" + "; ".join(f"({execcorr.zl(list(e))}, {execcorr.zl(list(p))})" for e, p in combos) + "].\n"
+            t += ("Eval vm_compute in map (fun ep => diagonal_equiv (sym_inputs %d %d %d (fst ep) (snd ep)) k_full k_diag %d%%nat) combos.\n"
+                  % (cf["w_total"], cf["nc"], cf["nx"], n))
+            open(path, "w").write(t)
+            files[path] = (rf, kf, combos)
+    out = common.coqc_many(list(files), timeout=300 if tier == "quick" else 1500)
+    st = {"kernel_pairs": len(files), "proved": 0, "timeout": 0}
+    for path, (rf, kf, combos) in files.items():
+        rc, so, se = out[path]
+        mm = re.search(r"=\s*\[(.*?)\]\s*:\s*list bool", so, re.S) if rc == 0 else None
+        b = [x.strip() == "true" for x in mm.group(1).split(";")] if mm else None
+        if se == "TIMEOUT":
+            st["timeout"] += 1
+        elif b and len(b) == len(combos) and all(b):
+            st["proved"] += 1
+            v.oblige(True)
+        else:
+            v.oblige(False)
+            ep = combos[b.index(False)] if b and False in b else None
+            v.violation(f"c10-diagonal-symbolic:{rf['id']}", f"the rank-1 kernel of part='diagonal' is not symbolically the diagonal of the full kernel (case {rf['id']}, kernel {kf['name'][:40]}, entity/permutation {ep}); coqc: {se[-150:]}",
+                        {"case": rf["id"], "code": rf["code"], "kernel": kf["name"], "entity_perm": [list(x) for x in ep] if ep else None,
+                         "broken_obligation": "SymEq.diagonal_equiv"}, no_input=True)
+        for ext in (".vo", ".vok", ".vos", ".glob"):
+            try:
+                os.remove(path[:-2] + ext)
+            except OSError:
+                pass
+    return st
 
 
 def replay(v, payload):
